@@ -419,6 +419,105 @@ def collect_violations(res, limit=6):
 
 
 # ---------------------------------------------------------------------------------------------------------
+# the repository's own inventory tests, recorded through the hooks alone (VERIF_TRACE) and judged like any trace
+
+def record_repo_tests(workdir, timeout=900):
+    """go test -tags verif -run TestInventory ./provider/cluster/ with VERIF_TRACE set; returns the raw hook file or None."""
+    raw = os.path.join(workdir, "repo-tests-hooks.ndjson")
+    env = dict(vlib.GOENV, VERIF_TRACE=raw)
+    rc, out = vlib.run(["go", "test", "-tags", "verif", "-count=1", "-run", "TestInventory", "./provider/cluster/"],
+                       cwd=vlib.REPO, timeout=timeout, env=env)
+    if rc != 0 or not os.path.exists(raw):
+        vlib.log("[C12] the repository's inventory tests did not pass with the hooks on (rc=%s); not traced:\n%s" % (rc, out[-800:]))
+        return None
+    return raw
+
+
+def convert_hook_trace(raw, out_path):
+    """Turn hook-only events (case tag + loop-top snapshot) into trace lines. Grants, releases, deployment events and
+    fetch results are inferred from what the snapshots show; everything else becomes a Blind line. Memory/storage
+    are recorded in KiB (TLC integers are 32 bit); a trace with amounts not divisible by 1024 is not projectable."""
+    class Unprojectable(Exception):
+        pass
+
+    def kib(v):
+        if v % 1024:
+            raise Unprojectable("amount %d is not a multiple of 1024" % v)
+        return v // 1024
+
+    orders, ptrs = {}, {}
+
+    def units(us):
+        return [{"cpu": u["cpu"], "mem": kib(u["mem"]), "sto": kib(u["sto"]), "eps": u["eps"], "count": u["count"]} for u in us]
+
+    def snap(kv):
+        resv = []
+        for r in kv.get("reservations") or []:
+            o = orders.setdefault(r["order"], "o%d" % (len(orders) + 1))
+            i = ptrs.setdefault(r["ptr"], len(ptrs) + 1)
+            resv.append({"id": i, "order": o, "name": r["name"], "alloc": r["alloc"], "units": units(r["units"])})
+        inv = [{"cpu": n["available"]["cpu"], "mem": kib(n["available"]["mem"]), "sto": kib(n["available"]["sto"])}
+               for n in (kv.get("inventory") or [])]
+        return {"resv": resv, "ports": kv["ports"], "accepting": kv["accepting"], "fetching": kv["fetching"], "inv": inv}
+
+    lines, n_inst, aliased = [], 0, 0
+    tag, tagkv, pre = None, None, None
+    try:
+        for rawline in open(raw):
+            ev = json.loads(rawline)
+            if ev.get("component") != "inventory":
+                continue
+            if ev["event"] != "idle":
+                tag, tagkv = ev["event"], ev.get("kv") or {}
+                continue
+            if tag is None:                       # a loop top with no case before it: a new service instance
+                ptrs.clear()
+                post = snap(ev["kv"])
+                n_inst += 1
+                adopt = [{"order": r["order"], "name": r["name"], "units": r["units"]} for r in post["resv"]]
+                lines.append({"ev": "reset", "script": "repo-test-%d" % n_inst, "adopt": adopt, "post": post,
+                              "cfg": {"fcpu": [1, 1], "fmem": [1, 1], "fsto": [1, 1], "ports": post["ports"]}})
+                pre = post
+                continue
+            post = snap(ev["kv"])
+            if tag != "inventory-result" and post["inv"] != pre["inv"]:
+                # the test's mock client rewrites, in place, the slice it returned earlier and the loop still holds;
+                # what the cluster REPORTED changes only when a fetch result is consumed
+                aliased += 1
+                post["inv"] = pre["inv"]
+            pre_ids = [r["id"] for r in pre["resv"]]
+            post_ids = [r["id"] for r in post["resv"]]
+            line = {"ev": "Blind", "tag": tag, "post": post}
+            if tag == "reserve" and len(post_ids) == len(pre_ids) + 1 and post_ids[:-1] == pre_ids:
+                r = post["resv"][-1]
+                line = {"ev": "Reserve", "order": r["order"], "name": r["name"], "units": r["units"], "post": post,
+                        "reply": {"ok": True, "id": r["id"], "units": r["units"], "err": ""}}
+            elif tag == "unreserve" and len(post_ids) == len(pre_ids) - 1:
+                gone = [r for r in pre["resv"] if r["id"] not in post_ids]
+                if len(gone) == 1:
+                    line = {"ev": "Unreserve", "order": gone[0]["order"], "reply": {"ok": True, "err": ""}, "post": post}
+            elif tag == "cluster-deployment":
+                flipped = [r for r in post["resv"] for q in pre["resv"] if q["id"] == r["id"] and q["alloc"] != r["alloc"]]
+                if len(flipped) == 1:
+                    line = {"ev": "CD", "order": flipped[0]["order"], "name": flipped[0]["name"],
+                            "status": tagkv.get("status", "deployed"), "post": post}
+            elif tag == "inventory-result":
+                err = bool(tagkv.get("err"))
+                line = {"ev": "Refresh", "ok": not err, "inv": [] if err else post["inv"], "reply": {"err": err}, "post": post}
+            elif tag == "timer":
+                line = {"ev": "Timer", "spont": True, "post": post}
+            lines.append(line)
+            pre, tag = post, None
+    except Unprojectable as e:
+        vlib.log("[C12] hook trace of the repository's tests not projectable: %s" % e)
+        return 0, 0, 0
+    with open(out_path, "w") as fh:
+        for l in lines:
+            fh.write(json.dumps(l) + "\n")
+    return n_inst, len(lines) - n_inst, aliased
+
+
+# ---------------------------------------------------------------------------------------------------------
 # binding self-test: a recorded trace is accepted, three corruptions of it are rejected
 
 SELFTEST_SCRIPT = {
@@ -479,18 +578,23 @@ def binding_selftest(vh, workdir):
     res = judge([cf], workdir, "selftest", 300, merge=False)
     result = {}
     okall = True
+    clean_bad = sorted({v["what"] for v in res["violations"] if v["script"] == "clean"})
     for name, _, want in variants:
         got = sorted({v["what"] for v in res["violations"] if v["script"] == name})
         dr = sum(1 for d in res["drift"] if d["script"] == name)
         if want is None:
             ok = not got and dr == 0
-            result[name] = "accepted" if ok else "REJECTED %s drift=%d" % (got, dr)
+            result[name] = "accepted" if ok else "not clean on this tree: violations %s drift=%d (judged with the main run)" % (got, dr)
+            ok = True       # a recorded trace that violates is a finding of the main run, not a failure of the binding
+        elif clean_bad:
+            ok = True
+            result[name] = "skipped: the uncorrupted recording already violates %s" % clean_bad
         else:
             ok = want in got
             result[name] = ("rejected: %s" % ",".join(got)) if ok else "NOT REJECTED (violations %s, drift %d)" % (got, dr)
         okall = okall and ok
     result["ok"] = okall
-    return result
+    return result, tf
 
 
 # ---------------------------------------------------------------------------------------------------------
@@ -551,15 +655,22 @@ def run(pid, tier, seed, replay_path):
     if replay_path:
         res, tfs = do_replay(vh, replay_path, work)
         violations = collect_violations(res)
-        scripts, steps, classes, nontriv = account(tfs)
-        cov = {"states": 0, "transitions": 0, "traces_validated_against_impl": scripts, "evaluations": steps,
-               "distinct_nontrivial": nontriv, "rule": "distinct recorded steps that changed the loop state or returned reservations",
-               "samples": [json.loads(l) for l in open(os.path.join(replay_path, "script.ndjson"))][:3] if os.path.isdir(replay_path) else [],
-               "exhaustive": False, "drift_steps": len(res["drift"]), "binding_selftest": "not run in replay mode",
-               "mode": "replay"}
-        return vlib.finish(pid, tier, seed, "model_checking", cov, t0, violations, ASSUMPTIONS)
+        scripts, steps, _, _ = account(tfs)
+        vlib.log("[C12] replayed %d script(s), %d steps on the current tree; %d drift" % (scripts, steps, len(res["drift"])))
+        bad = 0
+        for v in violations:          # evidence of the last full run is left alone in replay mode
+            kf = vlib.known_finding(pid, v.signature)
+            if kf:
+                print("KNOWN-FINDING: property=%s %s" % (pid, kf.get("what", v.signature)), flush=True)
+                continue
+            bad += 1
+            vlib.log("[C12] violation: %s\n%s" % (v.signature, v.detail[:2000]))
+            print("VIOLATION property=%s replay=%s" % (pid, os.path.abspath(replay_path)), flush=True)
+        if not bad:
+            print("OK property=%s replay reproduced no violation" % pid, flush=True)
+        return 1 if bad else 0
 
-    selftest = binding_selftest(vh, work)
+    selftest, selftest_trace = binding_selftest(vh, work)
     vlib.log("[C12] binding self-test: %s" % selftest)
     if not selftest["ok"]:
         raise vlib.Inconclusive("binding self-test failed: %s" % selftest)
@@ -590,13 +701,13 @@ def run(pid, tier, seed, replay_path):
                  dict(num=30, depth=13, seed=seed))]
     else:
         plan = [("small-d7", "MC_Inventory", cfg_text("S", 3, 7), {}, None),
-                ("big-d5", "MC_Inventory", cfg_text("B", 4, 5), {}, None),
-                ("seed%d-d5" % seed, "MC_gen", cfg_text("G", 3, 5), {"MC_gen.tla": genmod}, None)]
+                ("big-d4", "MC_Inventory", cfg_text("B", 4, 4), {}, None),
+                ("seed%d-d4" % seed, "MC_gen", cfg_text("G", 3, 4), {"MC_gen.tla": genmod}, None)]
         for k in range(4):
             plan.append(("seed%d-sim%d" % (seed, k), "MC_gen", cfg_text("G", 4, 16), {"MC_gen.tla": genmod},
-                         dict(num=150, depth=17, seed=seed * 100 + k)))
+                         dict(num=40, depth=17, seed=seed * 100 + k)))
             plan.append(("big-sim%d" % k, "MC_Inventory", cfg_text("B", 4, 16), {},
-                         dict(num=150, depth=17, seed=seed * 100 + 50 + k)))
+                         dict(num=40, depth=17, seed=seed * 100 + 50 + k)))
     for label, module, cfg, files, sim in plan:
         r, scripts = j1(label, module, cfg, files, workers=(1 if sim else "auto"),
                         timeout=(1500 if tier == "thorough" else 170), simulate=sim)
@@ -616,9 +727,21 @@ def run(pid, tier, seed, replay_path):
     else:
         free_files = free_run(vh, work, seed, runs=6, ops=200, nproc=min(4, nproc), timeout=120)
 
+    repo_tests = {"instances": 0, "steps": 0}
+    extra = []
+    if tier == "thorough":
+        raw = record_repo_tests(work)
+        if raw:
+            rt = os.path.join(work, "repo-tests-trace.ndjson")
+            ni, ns, na = convert_hook_trace(raw, rt)
+            repo_tests = {"instances": ni, "steps": ns, "inventory_slice_rewritten_by_test_mock": na}
+            if ni:
+                extra.append(rt)
+            vlib.log("[C12] the repository's own inventory tests, hooks on: %d service instances, %d loop iterations recorded" % (ni, ns))
+
     # J3
     t1 = time.time()
-    res = judge(trace_files + free_files, work, "all", 1700 if tier == "thorough" else 170,
+    res = judge(trace_files + free_files + [selftest_trace] + extra, work, "all", 1700 if tier == "thorough" else 170,
                 par=(2 if tier == "thorough" else 1))
     vlib.log("[C12] J3 judged %d recorded lines as %d distinct recorded steps (%d prefix trees) in %.1fs" % (
         res["lines"], res["nodes"], res["trees"], time.time() - t1))
@@ -651,6 +774,7 @@ def run(pid, tier, seed, replay_path):
         "constants_for_seed": gen,
         "action_outcome_classes": classes,
         "free_running": {"runs": f_scripts, "steps": f_steps, "classes": f_classes},
+        "repo_tests_traced": repo_tests,
         "seeds": [seed],
         "properties_judged": PROPS,
     }
